@@ -82,9 +82,25 @@ def build_base(shape, rng):
     return w
 
 
-def crash_case(base_dir, base_events, shape, seed, crash_at, truncate=None):
+_SYSCALLS = ("rename", "replace", "remove", "unlink", "mkdir", "rmdir", "open", "link", "truncate", "ftruncate")
+
+
+def _real_name(an):
+    parts = an.split(":")
+    if parts[0] == "seg":
+        return "MAIN_%s.%s" % (parts[1], parts[2])
+    if parts[0] == "tmptoc":
+        return "_MAIN_%s.toc.%s" % (parts[1], ":".join(parts[2:]))
+    if parts[0] == "toc":
+        return "_MAIN_%s.toc" % parts[1]
+    return None
+
+
+def crash_case(base_dir, base_events, shape, seed, crash_at, truncate=None, sys_at=None):
     """Copies the base directory, runs the transaction in a child that dies at storage
     operation `crash_at` (None: runs to completion), then recovers in this process.
+    sys_at: the child dies instead just before its n-th call of a file-system function (os.rename, os.open,
+    open(), ...), i.e. also *inside* a storage operation, between two of its system calls.
     Returns (trace, writers, readers, nops, crashed)."""
     d = tempfile.mkdtemp(prefix="verif-c02-")
     logpath = d + ".log"
@@ -108,10 +124,32 @@ def crash_case(base_dir, base_events, shape, seed, crash_at, truncate=None):
                 ix = st.open_index()
                 base_ops[0] = log.opcount
                 log.gate = gate
+                ncalls = [0]
+                if sys_at is not None:
+                    import builtins
+                    from harness.storage import _OPEN
+
+                    def gate(op, name):        # noqa: F811 - remembers the operation in flight
+                        with _OPEN(logpath + ".inflight", "w") as f:
+                            f.write("%s %s %d" % (op, name, log.opcount))
+
+                    def tick(fn):
+                        def wrapped(*a, **kw):
+                            ncalls[0] += 1
+                            if ncalls[0] == sys_at:
+                                os._exit(9)
+                            return fn(*a, **kw)
+                        return wrapped
+                    log.gate = gate
+                    for nm in _SYSCALLS:
+                        if hasattr(os, nm):
+                            setattr(os, nm, tick(getattr(os, nm)))
+                    builtins.open = tick(builtins.open)
                 run_txn(ix, log, "wc", shape, random.Random(seed))
                 log.gate = None
-                with open(logpath + ".n", "w") as f:
-                    f.write(str(count[0]))
+                from harness.storage import _OPEN as _o
+                with _o(logpath + ".n", "w") as f:
+                    f.write(str(ncalls[0] if sys_at is not None else count[0]))
             except BaseException as ex:
                 code = 3
                 try:
@@ -129,6 +167,29 @@ def crash_case(base_dir, base_events, shape, seed, crash_at, truncate=None):
         if code == 3:
             events.append({"proc": "wc", "ev": "apierror", "call": "transaction",
                            "err": open(logpath + ".err").read()[:100] if os.path.exists(logpath + ".err") else "?"})
+        if crashed and sys_at is not None and os.path.exists(logpath + ".inflight"):
+            # the storage operation in flight when the process died may or may not have taken effect - nothing
+            # else may have happened: its event is added iff the directory shows its effect
+            op, an, opn = open(logpath + ".inflight").read().split(" ")
+            done = any(e.get("opn") == int(opn) and e["ev"] not in ("api",) for e in child_events)
+            rn = _real_name(an)
+            if not done and rn is not None:
+                there = os.path.exists(os.path.join(d, rn))
+                if op == "create" and there:
+                    events.append({"proc": "wc", "ev": "create", "file": an})
+                elif op == "delete" and not there:
+                    events.append({"proc": "wc", "ev": "delete", "file": an})
+                elif op == "rename" and there and an.startswith("toc:"):
+                    g = an.split(":")[1]
+                    left = [fn for fn in os.listdir(d) if fn.startswith("_MAIN_%s.toc." % g)]
+                    if not left:
+                        try:
+                            summ = TracingFileStorage(d, log=Log())._toc_summary(rn)
+                            src = [e["file"] for e in child_events if e["ev"] == "create" and e["file"].startswith("tmptoc:%s:" % g)]
+                            events.append({"proc": "wc", "ev": "rename", "src": src[-1] if src else "tmptoc:%s:x" % g,
+                                           "dst": an, "toc": summ})
+                        except Exception:
+                            pass        # not a complete TOC: the recovery below meets it
         if crashed:
             events.append({"proc": "wc", "ev": "crash"})
             if truncate is not None:
@@ -198,7 +259,7 @@ def crash_case(base_dir, base_events, shape, seed, crash_at, truncate=None):
         return ixdriver.convert(events), writers, readers, nops, crashed
     finally:
         shutil.rmtree(d, ignore_errors=True)
-        for suf in ("", ".n", ".err", ".order"):
+        for suf in ("", ".n", ".err", ".order", ".inflight"):
             if os.path.exists(logpath + suf):
                 os.unlink(logpath + suf)
 
@@ -249,7 +310,30 @@ def check(run):
                                   "cfg": {"shape": shape, "crash_at": n, "of": nops, "truncate": trunc}, "seed": seed})
         finally:
             base.close()
+    # dying *inside* storage operations: before the n-th file-system call of the transaction (quick: every call of
+    # one shape's transaction and the last calls - the commit protocol - of two others)
+    syspoints = 0
+    sshapes = [shapes[0], "default", "tenth-generation"] if quick else SHAPES
+    for si, shape in enumerate(dict.fromkeys(sshapes)):
+        seed = rng.randrange(1 << 30)
+        base = build_base(shape, random.Random(seed))
+        try:
+            base_events = list(base.log.events)
+            bw, br = list(base.writers), list(base.readers)
+            _, _, _, ncalls, _ = crash_case(base.dir, base_events, shape, seed, None, sys_at=0)
+            if not ncalls:
+                continue
+            pts = range(1, ncalls + 1) if (si == 0 or not quick) else range(max(1, ncalls - 11), ncalls + 1)
+            for n in pts:
+                tr, W, R, _, crashed = crash_case(base.dir, base_events, shape, seed, None, sys_at=n)
+                run.count(len(tr))
+                syspoints += 1
+                items.append({"trace": tr, "writers": bw + W, "readers": br + R,
+                              "cfg": {"shape": shape, "crash_before_fs_call": n, "of": ncalls}, "seed": seed})
+        finally:
+            base.close()
     run.extra["crash_points"] = points
+    run.extra["crash_points_inside_operations"] = syspoints
     rejects = ixcommon.validate(run, items, chunk=80)
     ixcommon.report(run, "c02", items, rejects)
 
